@@ -314,9 +314,44 @@ def check_collection(t, cls, sp, perm, r, ts):
             r.out(f'{kind} order ok')
 
 
+def check_literals(t, r, ts, only=None):
+    """PUSH (set t) { a ; b } and PUSH (map t unit) { Elt a Unit ; Elt b Unit } for every ordered pair of the domain: accepted iff
+    a < b in the Tezos order - so values that COMPARE equal under different spellings (signatures) are duplicates."""
+    from mc import impl as M
+    D = dom(t)
+    sp = [split(t, v) for v in D]
+    ctx = M.make_context()
+    tm = T.t_to_micheline(t)
+    idx = range(min(len(D), 9))
+    for i in idx:
+        for j in idx:
+            if only and (i, j) != only:
+                continue
+            (ea, ra), (eb, rb) = sp[i], sp[j]
+            if not pinned(t, ra, rb):
+                continue
+            should = T.compare(t, ra, rb) < 0
+            for kind in ('set', 'map'):
+                if kind == 'set':
+                    code = M.P('PUSH', M.P('set', tm), [ea, eb])
+                else:
+                    code = M.P('PUSH', M.P('map', tm, M.P('unit')), [M.P('Elt', ea, M.P('Unit')), M.P('Elt', eb, M.P('Unit'))])
+                out, _ = M.run_impl(code, [], ctx)
+                acc = out[0] == 'ok'
+                r.ev()
+                r.nt((ts, kind, 'lit', i, j))
+                r.out(f'{kind} literal {"sorted" if should else "unsorted/duplicate"} -> {"accepted" if acc else "rejected"}')
+                if acc != should:
+                    what = 'equal under COMPARE (duplicate)' if T.compare(t, ra, rb) == 0 else ('out of order' if not should else 'in order')
+                    r.viol(f'{kind} literal with two keys {what} is {"accepted" if acc else "rejected"}: {why(t, ra, rb)}',
+                           {'type': ts, 'i': i, 'j': j, 'kind': kind, 'literal': True, 'a': ea, 'b': eb}, f'PUSH ({kind} {ts}) {{ {ea} ; {eb} }} -> {out}')
+
+
 def run_shard(t, tier):
     r = Result()
     check_type(t, r)
+    if t[0] != 'never':
+        check_literals(t, r, T.t_str(t))
     D = dom(t)
     if len(D) >= 2:
         sp0, sp1 = split(t, D[0]), split(t, D[-1])
@@ -335,7 +370,9 @@ def _find_type(ts):
 def replay(case):
     t = _find_type(case['type'])
     r = Result()
-    if 'perm' in case:
+    if case.get('literal'):
+        check_literals(t, r, case['type'], only=(case['i'], case['j']))
+    elif 'perm' in case:
         cls = A.mk_type(t)
         sp = [split(t, v) for v in dom(t)]
         check_collection(t, cls, sp, tuple(case['perm']), r, case['type'])
